@@ -186,17 +186,17 @@ func (w *c11World) opAdd() {
 		p := w.peers[c.Pick("add.peer", len(w.peers))]
 		e = m.RoutingTableEntry{DstIP: p, NextHop: p, Source: m.RouteSourcePeer, Stub: c.Bool("add.stub"),
 			Path: m.SwitchPath{Hops: []m.SwitchHop{
-				{Router: w.self, Delay: uint16(c.Int("add.d0", 0, 60)), ForwardLabel: w.label("add.l0")},
+				{Router: w.self, Delay: c11Delay(c, "add.d0"), ForwardLabel: w.label("add.l0")},
 				{Router: p, ReturnLabel: w.label("add.l1")},
 			}}}
 	default: // gossip / discovered via k relays
 		nh := w.peers[c.Pick("add.nexthop", len(w.peers))]
 		dst := w.pickAddr("add.dst")
 		k := c.Int("add.relays", 0, 4)
-		hops := []m.SwitchHop{{Router: w.self, Delay: uint16(c.Int("add.d0", 0, 60)), ForwardLabel: w.label("add.l0")}}
-		hops = append(hops, m.SwitchHop{Router: nh, Delay: uint16(c.Int("add.d1", 0, 60)), ForwardLabel: w.label("add.f1"), ReturnLabel: w.label("add.r1")})
+		hops := []m.SwitchHop{{Router: w.self, Delay: c11Delay(c, "add.d0"), ForwardLabel: w.label("add.l0")}}
+		hops = append(hops, m.SwitchHop{Router: nh, Delay: c11Delay(c, "add.d1"), ForwardLabel: w.label("add.f1"), ReturnLabel: w.label("add.r1")})
 		for i := 0; i < k; i++ {
-			hops = append(hops, m.SwitchHop{Router: w.pickAddr("add.relay"), Delay: uint16(c.Int("add.dk", 0, 60)), ForwardLabel: w.label("add.fk"), ReturnLabel: w.label("add.rk")})
+			hops = append(hops, m.SwitchHop{Router: w.pickAddr("add.relay"), Delay: c11Delay(c, "add.dk"), ForwardLabel: w.label("add.fk"), ReturnLabel: w.label("add.rk")})
 		}
 		hops = append(hops, m.SwitchHop{Router: dst, ReturnLabel: w.label("add.rl")})
 		e = m.RoutingTableEntry{DstIP: dst, NextHop: nh, Source: m.RouteSourceGossip, Stub: c.Bool("add.stub"),
@@ -428,6 +428,32 @@ func (w *c11World) opClean(age bool) {
 	}
 }
 
+// c11Delay draws a hop delay: mostly small, sometimes so large that a few hops
+// add up to more than the 16-bit total can hold.
+func c11Delay(c *core.Case, label string) uint16 {
+	if c.Chance(label+".huge", 1, 12) {
+		return uint16(core.OneOf(c, label+".h", 65535, 40000, 30000, 65000))
+	}
+	return uint16(c.Int(label, 0, 60))
+}
+
+// c11TotalDelay: the total delay of a path as the statement's ordering needs it
+// (every hop counts at least the minimum hop delay; saturating, never wrapping).
+func c11TotalDelay(hops []m.SwitchHop) uint16 {
+	var sum uint
+	for _, h := range hops {
+		if h.Delay < m.MinHopDelay {
+			sum += m.MinHopDelay
+		} else {
+			sum += uint(h.Delay)
+		}
+	}
+	if sum > 65534 {
+		return 65534
+	}
+	return uint16(sum)
+}
+
 // invariants that hold after every step.
 func (w *c11World) invariant(step string) {
 	c := w.c
@@ -438,6 +464,11 @@ func (w *c11World) invariant(step string) {
 	for i := range es {
 		e := &es[i]
 		byDst[e.DstIP] = append(byDst[e.DstIP], e)
+		if len(e.Path.Hops) >= 2 {
+			if want := c11TotalDelay(e.Path.Hops); e.Path.TotalDelay != want {
+				c.Fatalf("after %s: route to %s over %d hops is ranked with total delay %d, its hop delays add up to %d", step, e.DstIP, len(e.Path.Hops), e.Path.TotalDelay, want)
+			}
+		}
 		if e.Source == m.RouteSourceGossip {
 			perPrefix[e.RoutingPrefix]++
 		}
